@@ -791,6 +791,36 @@ def run_thread_case(case, scratch):
     return out
 
 
+def kafka_cases(ctx):
+    """from_kafka_batched(asynchronous=True) is a source that does work of its own at run time (offset commits from reference
+    counters it creates): a few C09 histories on the in-memory broker, observed for background loops / threads."""
+    from . import c09
+    items = [dict(it) for it in c09.CORPUS[:3]] + [c09.gen_case(ctx.rng) for _ in range(12 if ctx.thorough() else 3)]
+    return [{"kind": "kafka-async", "item": it} for it in items]
+
+
+def check_kafka_case(ctx, case):
+    import streamz.core as sc
+    from . import c09
+    base_threads = set(threading.enumerate())
+    assert not sc._io_loops, "background loop left over from a previous case"
+    item = case["item"]
+    try:
+        events, _rops = c09.run_impl(item["case"], list(item["ops"]) + c09.drain_ops(item["case"], item["ops"]))
+        bg = len(sc._io_loops)
+        new = [t for t in threading.enumerate() if t not in base_threads]
+    finally:
+        stop_background(base_threads)
+    ctx.case(case, nontrivial=any(ev.get("commit") for ev in events))
+    ctx.count("threads:kafka-async")
+    if any(ev.get("commit") for ev in events):
+        ctx.count("kafka-async:offsets-committed")
+    if bg or new:
+        ctx.failure("declared-async-started-thread", "from_kafka_batched(asynchronous=True) on the caller's loop: after polling, emitting and committing "
+                    "%d background loop(s) exist and %d new thread(s) are alive - an asynchronous source must do all its work on the caller's loop"
+                    % (bg, len(new)), case, oracle="C19: a source declared asynchronous never starts a background thread")
+
+
 def check_thread_case(ctx, case, scratch):
     out = run_thread_case(case, scratch)
     ctx.case(case, nontrivial=True)
@@ -989,6 +1019,8 @@ def run(ctx):
                 check_cfg(ctx, c, o, a)
         for c in thread_cases(ctx.thorough()):
             check_thread_case(ctx, c, scratch)
+        for c in kafka_cases(ctx):
+            check_kafka_case(ctx, c)
         fresh = FRESH_TYPES_ALL if ctx.thorough() else FRESH_TYPES_QUICK
         for what in fresh:
             for a in ([True, None] if ctx.thorough() else [True]):
@@ -1022,6 +1054,8 @@ def replay(ctx, data):
             check_cfg(ctx, case, obs[0], answers[0])
         elif case["kind"] == "threads":
             check_thread_case(ctx, case, scratch)
+        elif case["kind"] == "kafka-async":
+            check_kafka_case(ctx, case)
         else:
             check_fresh(ctx, case)
     finally:
